@@ -154,7 +154,8 @@ def _extra(lines, verdicts):
     obs = 0
     for ln in lines:
         if ln.startswith("X ") or ln.startswith("P "):
-            k = len(ln.split("|", 1)[1].split())
+            # observations only: the last token of an X line (`c=...`) is the real can_be_ignored classification
+            k = len([t for t in ln.split("|", 1)[1].split() if not t.startswith("c=")])
             obs += k
             if k > 1:
                 multi += 1
@@ -212,7 +213,8 @@ SPEC = {
         "fiber part reuses C06's models (Model/Retry.v, Model/Fiber.v)",
     ],
     "assumptions": [
-        "executions terminate (each Complete label is eventually offered): fiber termination itself is C06/C10's subject",
+        "executions terminate (each Complete label is eventually offered; fiber termination itself is C06/C10's subject) and an "
+        "armed timer eventually fires: 'it always returns' is the proved no-deadlock + measure under these two fairness premises",
         "select! tie-breaking and the order in which FuturesUnordered yields executions that became ready at the same instant are an oracle: the model enumerates every resolution, the acceptor checks membership",
         "e2e: timing enters only through one-sided bounds that hold for every scheduling (a speculative fiber's first frame "
         "arrives no earlier than k intervals after the call started; an answer is logged before it is processed; the call "
